@@ -94,6 +94,10 @@ func run(c *mon.Ctx) {
 		var missing []int
 		for k := r.Intn(3); k > 0 && r.Chance(2); k-- {
 			m := 8190 - r.Intn(5)
+			if r.Bool() {
+				// any 13-bit value that is not a stream of the table is a missing PID: low table PIDs, the null PID, ...
+				m = r.PickInt([]int{1, 2, 3, 15, 16, 17, 31, 32, 0x1ffe, 0x1fff, 0x1fff, 1 + r.Intn(8191)})
+			}
 			isStream := false
 			for _, s := range streamPids {
 				if s == m {
